@@ -73,7 +73,7 @@ def run(ctx, res):
 
     # ---- R2 -----------------------------------------------------------------
     wf = first[0]
-    ev = APE.run(prog, cg, wf, bound=APE.BOUND, opaque_calls=("write",))
+    ev = APE.run(prog, cg, wf, bound=max(APE.BOUND, 2), opaque_calls=("write",))   # two full iterations: a result that is only the last write differs from the bytes done
     res.floor("C20.R2", 4)
     npaths = 0
     for p in ev.paths:
